@@ -44,11 +44,12 @@ func init() {
 				symOnly(inst("internal/anonssh", "HSSH", "nkeys", -1, "k", 1)),
 				symOnly(inst("internal/anonssh", "HSSH", "nkeys", 0, "k", 1)),
 				symOnly(inst("internal/anonssh", "HSSH", "nkeys", 2, "k", 2)),
-				symOnly(inst("internal/maincmd", "HSSHExec", "k", 2)),
-				symOnly(inst("internal/maincmd", "HSSHExec", "k", 3)),
+				symOnly(inst("internal/maincmd", "HSSHExec", "k", 2, "free0", 0)),
+				symOnly(inst("internal/maincmd", "HSSHExec", "k", 3, "free0", 0)),
+				symOnly(inst("internal/maincmd", "HSSHExec", "k", 3, "free0", 1)),
 			}
 			if tier == "thorough" {
-				out = append(out, symOnly(inst("internal/anonssh", "HSSH", "nkeys", 3, "k", 3)), symOnly(inst("internal/maincmd", "HSSHExec", "k", 4)))
+				out = append(out, symOnly(inst("internal/anonssh", "HSSH", "nkeys", 3, "k", 3)), symOnly(inst("internal/maincmd", "HSSHExec", "k", 4, "free0", 0)))
 			}
 			return out
 		},
@@ -64,7 +65,7 @@ func init() {
 			var out []Instance
 			maxN, maxM := 3, 2
 			if tier == "thorough" {
-				maxN, maxM = 5, 4
+				maxN, maxM = 4, 3 // n = 5 leaves solver queries undecided within 60 s
 			}
 			for m := -1; m <= maxM; m++ {
 				for n := 0; n <= maxN; n++ {
@@ -75,11 +76,12 @@ func init() {
 			// several files in one session; the real block size (700) with block-aligned files
 			out = append(out, inst("internal/sender", "HDeltaTwoFiles", "n", 2, "m", 2, "b", 1))
 			out = append(out, inst("internal/maincmd", "HClientPull", "n", 40000))
-			out = append(out, inst("rsyncd", "HEndToEndBig", "m", 700, "pos", 0, "t", 0))
-			out = append(out, inst("rsyncd", "HEndToEndBig", "m", 700, "pos", -1, "t", 1))
+			out = append(out, inst("rsyncd", "HEndToEndBig", "m", 700, "pos", 0, "t", 0, "swap", 0))
+			out = append(out, inst("rsyncd", "HEndToEndBig", "m", 700, "pos", -1, "t", 1, "swap", 0))
+			out = append(out, inst("rsyncd", "HEndToEndBig", "m", 1400, "pos", -1, "t", 0, "swap", 1))
 			if tier == "thorough" {
-				out = append(out, inst("rsyncd", "HEndToEndBig", "m", 1400, "pos", 0, "t", 1))
-				out = append(out, inst("rsyncd", "HEndToEndBig", "m", 1401, "pos", 700, "t", 0))
+				out = append(out, inst("rsyncd", "HEndToEndBig", "m", 1400, "pos", 0, "t", 1, "swap", 0))
+				out = append(out, inst("rsyncd", "HEndToEndBig", "m", 1401, "pos", 700, "t", 0, "swap", 0))
 				out = append(out, inst("internal/sender", "HDeltaTwoFiles", "n", 3, "m", 2, "b", 2))
 			}
 			return out
@@ -111,9 +113,10 @@ func init() {
 	reg(&Property{
 		ID: "C06",
 		Instances: func(tier string) []Instance {
-			out := []Instance{inst("rsyncd", "HDisclose", "n", 0), inst("rsyncd", "HDisclose", "n", 1), inst("rsyncd", "HDisclose", "n", 2)}
+			out := []Instance{inst("rsyncd", "HDisclose", "n", 0, "abs", 0), inst("rsyncd", "HDisclose", "n", 1, "abs", 0), inst("rsyncd", "HDisclose", "n", 2, "abs", 0),
+				inst("rsyncd", "HDisclose", "n", 0, "abs", 1), inst("rsyncd", "HDisclose", "n", 1, "abs", 1), inst("rsyncd", "HDisclose", "n", 3, "abs", 1)}
 			if tier == "thorough" {
-				out = append(out, inst("rsyncd", "HDisclose", "n", 3), inst("rsyncd", "HDisclose", "n", 4))
+				out = append(out, inst("rsyncd", "HDisclose", "n", 3, "abs", 0), inst("rsyncd", "HDisclose", "n", 4, "abs", 0), inst("rsyncd", "HDisclose", "n", 4, "abs", 1))
 			}
 			return out
 		},
@@ -214,9 +217,12 @@ func init() {
 					out = append(out, inst("internal/receiver", "HRecvArbitrary", "m", m, "k", k, "cut", -1))
 				}
 			}
+			// a damaged file inside a multi-file session must fail the session (first or second file)
+			out = append(out, inst("internal/receiver", "HAtomicSession", "cut", -1, "first", 1))
+			out = append(out, inst("internal/receiver", "HAtomicSession", "cut", -1, "first", 0))
 			return out
 		},
-		MustReach: []string{"commit", "commit-nonempty", "error"},
+		MustReach: []string{"commit", "commit-nonempty", "error", "damaged-first", "damaged"},
 		Redirects: sym.VfsRedirects(),
 		Bounds:    "adversarial data segment: symbolic header fields in -1..3, k tokens each a literal run of 1..2 symbolic bytes / a block reference 0..4 (valid or not) / a premature end marker, symbolic 16-byte trailer, symbolic basis of m bytes (m=-1: no basis file), symbolic seed",
 		Outside:   "MD4 collisions (ideal-hash model); segments longer than the bound; declared sizes above 64 bytes",
@@ -247,8 +253,9 @@ func init() {
 				}
 			}
 			for _, c := range cuts {
-				out = append(out, inst("internal/receiver", "HAtomicSession", "cut", c))
+				out = append(out, inst("internal/receiver", "HAtomicSession", "cut", c, "first", 0))
 			}
+			out = append(out, inst("internal/receiver", "HAtomicSession", "cut", -1, "first", 1))
 			out = append(out, inst("internal/receiver", "HAtomicSymlink"))
 			return out
 		},
@@ -273,6 +280,9 @@ func init() {
 				small(inst("internal/receiver", "HHostileRecvFiles", "L", 8)),
 				small(inst("internal/receiver", "HHostileRecvFiles", "L", 28)),
 				small(inst("internal/rsyncwire", "HHostileMux", "L", 10)),
+				inst("internal/rsyncwire", "HMuxBig", "delta", 1),
+				inst("internal/rsyncwire", "HMuxBig", "delta", 4),
+				inst("internal/rsyncwire", "HMuxBig", "delta", 0),
 				inst("internal/rsyncopts", "HPeerArgs", "daemon", 0),
 				inst("internal/rsyncopts", "HPeerArgs", "daemon", 1),
 				small(inst("rsyncd", "HHostileDaemon", "mode", 0, "n", 10)),
@@ -337,7 +347,7 @@ func init() {
 			for _, k := range ks {
 				out = append(out, inst("internal/rsyncwire", "HMuxReader", "k", k))
 			}
-			for _, d := range []int{-1, 0, 1} {
+			for _, d := range []int{-1, 0, 1, 4} {
 				out = append(out, inst("internal/rsyncwire", "HMuxBig", "delta", d))
 			}
 			for _, n := range []int{1, 99, 100, 101, 128} {
